@@ -1640,6 +1640,30 @@ def _collect_try_structure(lines: List[str], start: int) -> Tuple[List[str], int
     return snippet, i
 
 
+def _function_local_names(block: List[str]) -> Set[str]:
+    """Names a function body binds by assignment or as a loop variable, minus its ``global`` names."""
+
+    import textwrap
+
+    try:
+        tree = ast.parse(textwrap.dedent("\n".join(block)))
+    except SyntaxError:
+        return set()
+    bound: Set[str] = set()
+    declared_global: Set[str] = set()
+    stack: List[ast.AST] = list(tree.body)
+    while stack:
+        node = stack.pop()
+        if isinstance(node, (ast.FunctionDef, ast.AsyncFunctionDef, ast.ClassDef, ast.Lambda)):
+            continue
+        if isinstance(node, ast.Global):
+            declared_global.update(node.names)
+        elif isinstance(node, ast.Name) and isinstance(node.ctx, ast.Store):
+            bound.add(node.id)
+        stack.extend(ast.iter_child_nodes(node))
+    return bound - declared_global
+
+
 def _parse_function(
     name: str,
     params_src: str,
@@ -1707,6 +1731,14 @@ def _parse_function(
     child_ctx["functions"] = functions_map
     if "tmp_counter" in ctx:
         child_ctx["tmp_counter"] = ctx["tmp_counter"]
+
+    # a name the body assigns without declaring it ``global`` is local to the function,
+    # also when a file-scope variable of that name exists already
+    for local_name in _function_local_names(block):
+        child_ctx["var_declared"].discard(local_name)
+        child_ctx["_base_declared"].discard(local_name)
+        child_ctx["var_types"].pop(local_name, None)
+        child_ctx["vars"].pop(local_name, None)
 
     fn_meta: Dict[str, object] = {"return_types": [], "has_void": False}
     child_ctx["current_function"] = fn_meta
@@ -2009,7 +2041,11 @@ def _handle_assignment_ast(
         # is the first to assign them
         function_globals: Set[str] = ctx.setdefault("function_declared_globals", set())
         names_global_in_function = target.id in ctx.get("global_names", set())
-        if target.id not in declared and target.id in function_globals:
+        if (
+            target.id not in declared
+            and target.id in function_globals
+            and (is_global_scope or names_global_in_function)
+        ):
             declared.add(target.id)
         if target.id not in declared:
             declared.add(target.id)
@@ -2131,7 +2167,11 @@ def _handle_assignment_ast(
         function_globals = ctx.setdefault("function_declared_globals", set())
         for idx, name in enumerate(left_names):
             vars_env[name] = evaluated_values[idx]
-            if name not in declared and name in function_globals:
+            if (
+                name not in declared
+                and name in function_globals
+                and (is_global_scope or name in ctx.get("global_names", set()))
+            ):
                 declared.add(name)
             if name not in declared:
                 declared.add(name)
